@@ -820,8 +820,24 @@ func (ex *Executor) execGo(st *State, fr *Frame, x *ssa.Go) bool {
 	} else {
 		ev.Fn = "?"
 	}
-	for _, a := range x.Call.Args {
+	// the goroutine's parameters can be named in a pattern like its captured variables (a variable the function
+	// literal used to capture may be handed over as an argument instead)
+	var goFn *ssa.Function
+	if sc := x.Call.StaticCallee(); sc != nil {
+		goFn = sc
+	} else if fv.Fn != nil {
+		goFn = fv.Fn.Fn
+	}
+	for len(ev.ArgNames) < len(ev.Args) {
+		ev.ArgNames = append(ev.ArgNames, "")
+	}
+	for i, a := range x.Call.Args {
 		ev.Args = append(ev.Args, ex.value(st, fr, a))
+		nm := ""
+		if goFn != nil && !x.Call.IsInvoke() && len(goFn.Params) == len(x.Call.Args) {
+			nm = goFn.Params[i].Name()
+		}
+		ev.ArgNames = append(ev.ArgNames, nm)
 	}
 	st.events = append(st.events, ev)
 	ex.forkRule(st, fr, x, fv)
